@@ -129,7 +129,11 @@ def radial_clamp(ctx):
     r2 = lambda q: G.norm2(q - c) - G.dot(q - c, n) ** 2 / n2
     ctx.prove("same-radius-about-the-axis", ctx.eq(r2(p), r2(pos), tol=1e-6))
     if not ctx.symbolic:
-        # parameter is arc length: turning angle = t / radius
+        # parameter is arc length: turning angle = t / radius (radius = distance of the creation point from the axis)
+        r_true = math.sqrt(float(r2(pos)))
+        nu = np.asarray(n, dtype=float) / math.sqrt(float(n2))
+        want = c + G.rot(nu, math.cos(t / r_true), math.sin(t / r_true), pos - c)
+        ctx.prove("parameter-is-the-arc-length-travelled", ctx.eq(p, want, tol=1e-6 * (1 + r_true)), t=t, radius=r_true)
         clamp.update_params([0.0])
         ctx.prove("zero-parameter-is-the-creation-point", ctx.eq(clamp.position, pos, tol=1e-6))
 
